@@ -244,7 +244,9 @@ def base_events(req):
             if dim == "2d":
                 for p in kernel_call_parameters(info):
                     if p.type == "orientation":
-                        pars[p.name] = rng.choice([0.0, 20.0, 45.0, 77.0, 90.0, -30.0, 130.0])
+                        # the first 2-D set of every model is at the default orientation (all angles zero: every
+                        # pixel then has a zero component along the particle's axis)
+                        pars[p.name] = 0.0 if k == 0 else rng.choice([0.0, 20.0, 45.0, 77.0, 90.0, -30.0, 130.0])
             if k % 3 == 1:
                 add_dispersity(info, pars, rng, dim, big=(rng.random() < 0.5))
             smax, _ = length_scale(info, pars)
